@@ -213,6 +213,8 @@ def model_of(value):
             return ('str', value.value)
         if dt in (sc.DType.int64, sc.DType.int32):
             return ('int', int(value.value))
+        if dt == sc.DType.PyObject and isinstance(value.value, str):
+            return ('str', value.value)
         if dt in (sc.DType.float64, sc.DType.float32):
             f32 = dt == sc.DType.float32
             if value.variance is not None:
@@ -257,11 +259,8 @@ COMMENT_MECH = 'non_ascii_file_comment'
 EMPTY_CODE_MECH = 'empty_block_code'
 
 
-def _mechs(v):
-    k = v.get('keys') or {}
-    if k.get('mechanisms'):
-        return set(k['mechanisms'])
-    return {k['mechanism']} if k.get('mechanism') else set()
+def _mech(v):
+    return (v.get('keys') or {}).get('mechanism')
 
 
 def _is_c14(v):
@@ -270,14 +269,13 @@ def _is_c14(v):
 
 FINDING_PREDICATES = {
     # _quotes_for_string_value leaves strings unquoted that CIF 1.1 does not allow unquoted
-    'cif.quoting.unquoted_special': lambda v: _is_c14(v) and bool(_mechs(v) & QUOTING_MECHS)
-    and _mechs(v) <= QUOTING_MECHS | {TEXTFIELD_MECH},
+    'cif.quoting.unquoted_special': lambda v: _is_c14(v) and _mech(v) in QUOTING_MECHS,
     # a multi-line value with a line starting with ';' closes its own text field
-    'cif.textfield.line_starts_with_semicolon': lambda v: _is_c14(v) and _mechs(v) == {TEXTFIELD_MECH},
+    'cif.textfield.line_starts_with_semicolon': lambda v: _is_c14(v) and _mech(v) == TEXTFIELD_MECH,
     # save_cif(file, Block | blocks, comment=...) writes the comment without ASCII escaping
-    'cif.comment.file_comment_not_escaped': lambda v: _is_c14(v) and _mechs(v) == {COMMENT_MECH},
+    'cif.comment.file_comment_not_escaped': lambda v: _is_c14(v) and _mech(v) == COMMENT_MECH,
     # Block / CIF with the default empty name write "data_" without a block code
-    'cif.block.empty_block_code': lambda v: _is_c14(v) and _mechs(v) == {EMPTY_CODE_MECH},
+    'cif.block.empty_block_code': lambda v: _is_c14(v) and _mech(v) == EMPTY_CODE_MECH,
 }
 
 
@@ -372,7 +370,7 @@ def hostile_string(rng):
     return s[:199]
 
 
-def any_string(rng, p_hostile=0.35):
+def any_string(rng, p_hostile=0.12):
     return hostile_string(rng) if rng.random() < p_hostile else benign_string(rng)
 
 
@@ -812,9 +810,12 @@ class Monitors:
 
         def report(category, what, **keys):
             if culprit_mechs:
-                kind = 'doc:caused_by:' + '+'.join(culprit_mechs)
-                ctx.violation(kind, f'{where}: {what}', case, mechanisms=culprit_mechs, category=category,
-                              **keys)
+                # the narrow monitors flagged tokens / comments of this document: one report per
+                # mechanism, so that each is classified on its own
+                for m in culprit_mechs:
+                    ctx.violation('doc:caused_by:' + m, f'{where}: {what}', case, mechanism=m,
+                                  together_with=[o for o in culprit_mechs if o != m], category=category,
+                                  **keys)
             else:
                 ctx.violation('doc:' + category, f'{where}: {what}', case, mechanism=category, **keys)
 
@@ -990,7 +991,7 @@ def gen_column(rng, n, multi_line_ok):
     """(sc.Variable, list of expectations, class)."""
     r = rng.random()
     if r < 0.45:
-        p = rng.choice([0.0, 0.15, 0.6])
+        p = rng.choice([0.0, 0.0, 0.1, 0.5])
         vals = [any_string(rng, p) for _ in range(n)]
         if not multi_line_ok:
             vals = [v.replace('\n', ' ') for v in vals]
@@ -1111,7 +1112,7 @@ def _email(rng):
     return f'{lead}{benign_string(rng, 1, 8).lower()}@{benign_string(rng, 2, 8).lower()}.org'
 
 
-def _nonempty(rng, p=0.35):
+def _nonempty(rng, p=0.12):
     while True:
         s = any_string(rng, p)
         if s.strip(BLANKS):
@@ -1134,7 +1135,7 @@ def gen_builder(rng, cif, md, tmpdir, k):
             ps = []
             for _ in range(int(rng.integers(0, 6))):
                 p = {'name': _nonempty(rng), 'corresponding': bool(rng.random() < 0.4),
-                     'role': _nonempty(rng, 0.3) if rng.random() < 0.5 else None,
+                     'role': _nonempty(rng) if rng.random() < 0.5 else None,
                      'orcid': _orcid(rng) if rng.random() < 0.5 else None,
                      'email': _email(rng) if rng.random() < 0.5 else None,
                      'address': _nonempty(rng) if rng.random() < 0.4 else None}
